@@ -428,7 +428,7 @@ func c16Structure(c *Ctx) {
 				c.Ok("R5.pem", "ParsePEMCertificates|garbage is an error", w.Pos(r.Pos()), "non-nil error")
 			}
 		}
-		c.Floor("R5.pem", nNil, 2, "returns on a nil PEM block")
+		c.Floor("R5.pem", nNil, 1, "returns on a nil PEM block")
 		// success means nothing but white space is left: every possibly-nil return holds the must-fact that the
 		// remaining data is empty (the loop ran out) or trims to nothing (end of bundle)
 		dataArg := dec.Call.Args[0]
@@ -436,7 +436,7 @@ func c16Structure(c *Ctx) {
 			if pp.Recover != nil && r.Block() == pp.Recover {
 				continue
 			}
-			consumed := f.Any(r.Block(), func(l Lit) bool {
+			isConsumedLit := func(l Lit) bool {
 				bin, ok := l.V.(*ssa.BinOp)
 				if !ok {
 					return false
@@ -457,7 +457,30 @@ func c16Structure(c *Ctx) {
 					return true
 				}
 				return false
-			})
+			}
+			// at the return block, or - when loop exit and `break` merge there - on every edge into it
+			var consumedAt func(b *ssa.BasicBlock, depth int) bool
+			consumedAt = func(b *ssa.BasicBlock, depth int) bool {
+				if f.Any(b, isConsumedLit) {
+					return true
+				}
+				if depth > 2 || len(b.Preds) == 0 {
+					return false
+				}
+				for _, p := range b.Preds {
+					okEdge := false
+					for l := range w.factsOnEdge(p, b) {
+						if isConsumedLit(l) {
+							okEdge = true
+						}
+					}
+					if !okEdge && !(len(p.Instrs) == 1 && consumedAt(p, depth+1)) {
+						return false
+					}
+				}
+				return true
+			}
+			consumed := consumedAt(r.Block(), 0)
 			c.Check(consumed, "R5.pem", "ParsePEMCertificates|success only when all input was consumed", w.Pos(r.Pos()), "must-fact len(data) == 0 or len(TrimSpace(data)) == 0", "the parser can succeed with unparsed bytes left (the loop ends while data is non-empty): trailing garbage is accepted")
 		}
 		// append of the parsed certificate, in order, error returned
